@@ -67,6 +67,18 @@ def write_field(f, v, b):
 
 def gen_c11(tier, rng):
     cases = []
+    # the type setters of Payload and TECMP::Payload (they forward to the payload-type object): type, message type, raw type
+    for kind in ("pl", "tpl"):
+        ops = []
+        for _ in range(80 if tier == "quick" else 800):
+            ty = rng.choice([0x0101, 0x03FF, 0xFFFF, 0, rng.getrandbits(16), rng.getrandbits(32)])
+            ops.append("%s new x %08x %s" % (kind, ty, proto.hexs(proto.rand_bytes(rng, rng.randrange(0, 6)))))
+            for _k in range(3):
+                op = rng.choice(["settype", "setmt", "setraw"])
+                v = rng.getrandbits(32) if op == "settype" else rng.getrandbits(8)
+                ops.append("%s %s x %d" % (kind, op, v))
+            ops.append("%s show x" % kind)
+        cases.append(Case("c11p", ops, nontrivial=True, tags=(kind, "type-setters")))
     for cname, (ctype, kind, size, default, fields) in layout.CLASSES.items():
         for f in fields:
             for tag, bg in backgrounds(rng, cname):
